@@ -209,3 +209,6 @@ def _vdesc(asg):
 
 def _vwit(asg):
     return {"value_bits_msb_first": _vdesc(asg)}
+
+
+MUTATION_TARGETS = [(DEX, "readuleb128"), (DEX, "readsleb128"), (DEX, "readuleb128p1"), (DEX, "writeuleb128"), (DEX, "writesleb128"), (DEX, "get_byte")]
